@@ -30,7 +30,7 @@ pub fn plan(prop: &str) -> Vec<Batch> {
         "C04" => vec![b("A", "sckill", 30_000, 600_000), b("A", "weakkill", 20_000, 500_000), b("A", "corrupt", 8_000, 200_000), b("B", "restart", 8_000, 200_000)],
         "C11" => vec![b("A", "sweep", 4_096, 4_096), b("A", "sckill", 20_000, 400_000), b("A", "sc", 10_000, 200_000), b("A", "corrupt", 8_000, 200_000)],
         "C16" => vec![b("A", "corrupt", 60_000, 1_500_000), b("A", "sckill", 6_000, 100_000), b("B", "abi", 4_000, 80_000)],
-        "C18" => vec![b("A", "busy", 20_000, 400_000), b("A", "sckill", 20_000, 400_000), b("A", "weakkill", 10_000, 300_000), b("A", "deadwriter", 16, 480)],
+        "C18" => vec![b("A", "busy", 20_000, 400_000), b("A", "sckill", 20_000, 400_000), b("A", "weakkill", 10_000, 300_000), b("A", "deadwriter", 16, 480), b("A", "flood", 4, 64)],
         "C17" => vec![b("A", "sc", 8_000, 100_000), b("A", "corrupt", 8_000, 100_000), b("B", "abi", 16_000, 400_000), b("B", "synthetic", 16_000, 400_000)],
         "C01" => vec![b("B", "pipeline", 24_000, 600_000), b("B", "restart", 12_000, 300_000), b("B", "tight", 16_000, 400_000), b("B", "coldstart", 8_000, 200_000), b("B", "outage", 8_000, 200_000)],
         "C05" => vec![b("B", "synthetic", 30_000, 800_000), b("B", "pipeline", 12_000, 300_000), b("B", "tight", 6_000, 100_000)],
@@ -49,6 +49,10 @@ pub fn plan(prop: &str) -> Vec<Batch> {
 
 pub fn verif_root() -> PathBuf {
     std::env::var_os("VERIF_ROOT").map(PathBuf::from).unwrap_or_else(|| PathBuf::from("/verif"))
+}
+
+fn replay_dir() -> PathBuf {
+    std::env::var_os("VERIF_REPLAY_DIR").map(PathBuf::from).unwrap_or_else(|| verif_root().join("replays"))
 }
 
 fn base_seed() -> u64 {
@@ -381,6 +385,7 @@ fn minimise(mut cfg: AnyCfg, seed: u64, mut dec: Vec<u32>, prop: &str, oracle: &
     let mut tries = 0u32;
     let budget_s = 40.0;
     let max_tries = 600;
+    let spent = |tries: u32| tries >= max_tries || t0.elapsed().as_secs_f64() > budget_s;
     let mut ok = |c: &AnyCfg, d: &[u32], tries: &mut u32| -> bool {
         if *tries >= max_tries || t0.elapsed().as_secs_f64() > budget_s {
             return false;
@@ -407,9 +412,9 @@ fn minimise(mut cfg: AnyCfg, seed: u64, mut dec: Vec<u32>, prop: &str, oracle: &
     }
     // 2. zero chunks
     let mut size = (dec.len() / 2).max(1);
-    while size >= 1 {
+    while size >= 1 && !spent(tries) {
         let mut i = 0;
-        while i < dec.len() {
+        while i < dec.len() && !spent(tries) {
             let end = (i + size).min(dec.len());
             if dec[i..end].iter().any(|&x| x != 0) {
                 let mut cand = dec.clone();
@@ -429,9 +434,9 @@ fn minimise(mut cfg: AnyCfg, seed: u64, mut dec: Vec<u32>, prop: &str, oracle: &
     }
     // 3. delete chunks
     let mut size = (dec.len() / 4).max(1);
-    while size >= 1 && dec.len() > 1 {
+    while size >= 1 && dec.len() > 1 && !spent(tries) {
         let mut i = 0;
-        while i + size <= dec.len() {
+        while i + size <= dec.len() && !spent(tries) {
             let mut cand = dec.clone();
             cand.drain(i..i + size);
             if ok(&cfg, &cand, &mut tries) {
@@ -447,6 +452,9 @@ fn minimise(mut cfg: AnyCfg, seed: u64, mut dec: Vec<u32>, prop: &str, oracle: &
     }
     // 4. lower values
     for i in 0..dec.len() {
+        if spent(tries) {
+            break;
+        }
         if dec[i] > 1 {
             let mut cand = dec.clone();
             cand[i] = 1;
@@ -460,7 +468,7 @@ fn minimise(mut cfg: AnyCfg, seed: u64, mut dec: Vec<u32>, prop: &str, oracle: &
     }
     // 5. configuration
     let mut progress = true;
-    while progress {
+    while progress && !spent(tries) {
         progress = false;
         for cand in shrink_cfgs(&cfg) {
             if ok(&cand, &dec, &mut tries) {
@@ -492,7 +500,7 @@ fn write_replay(prop: &str, world: &str, profile: &str, index: u64, seed: u64, c
     let (out, rep) = exec(cfg, seed, Some(dec.to_vec()), true, &dir);
     close_leaked_fds(base_fds);
     let v = out.violations.iter().find(|v| v.props.contains(&prop_static(prop)) && v.oracle == oracle && v.sig == sig)?;
-    let dir = verif_root().join("replays");
+    let dir = replay_dir();
     let _ = std::fs::create_dir_all(&dir);
     let path = dir.join(format!("{prop}-{seed:016x}-{:08x}.json", str_hash(&format!("{oracle}|{sig}")) as u32));
     let j = json!({
@@ -528,6 +536,10 @@ pub fn replay(file: &str) -> i32 {
     let oracle = v["expect"]["oracle"].as_str().unwrap_or("");
     let sig = v["expect"]["sig"].as_str().unwrap_or("");
     let want_hash = v["expect"]["event_hash"].as_str().unwrap_or("");
+    if std::env::var_os("VERIF_CPU").is_none() {
+        std::env::set_var("VERIF_CPU", "0");
+    }
+    pin_to_cpu();
     let sb = Sandbox::new();
     let dir = sb.fresh();
     println!("replay: property={prop} world={world} seed={seed} decisions={}", dec.len());
@@ -619,6 +631,11 @@ pub fn check(prop: &str, tier: &str) -> i32 {
     for v in mine {
         by_sig.entry((v["oracle"].as_str().unwrap_or("").to_string(), v["sig"].as_str().unwrap_or("").to_string())).or_default().push(v);
     }
+    // in-process re-executions (minimisation, replay files): same single-CPU discipline as workers
+    if std::env::var_os("VERIF_CPU").is_none() {
+        std::env::set_var("VERIF_CPU", "0");
+    }
+    pin_to_cpu();
     let sb = Sandbox::new();
     let base_fds = open_fds();
     let mut new_violations = 0;
@@ -642,6 +659,7 @@ pub fn check(prop: &str, tier: &str) -> i32 {
         // re-run to obtain the decision list, then minimise
         let cfg = gen_cfg(world, profile, rseed, index);
         let dir = sb.fresh();
+        let t_rerun = Instant::now();
         let (out0, rep0) = exec(&cfg, rseed, None, false, &dir);
         close_leaked_fds(&base_fds);
         let reproduced = out0.violations.iter().any(|x| x.props.contains(&prop_static(prop)) && x.oracle == oracle.as_str() && x.sig == *sig);
@@ -649,8 +667,14 @@ pub fn check(prop: &str, tier: &str) -> i32 {
             harness_fail.push(format!("nondeterminism: violation {full_sig} of run {index} (seed {rseed}) did not reproduce in the orchestrator"));
             continue;
         }
-        let (mcfg, mdec, tries) = minimise(cfg, rseed, rep0.decisions.clone(), prop, oracle, sig, &sb, &base_fds);
-        let note = format!("minimised from {} decisions to {} in {} re-executions", rep0.decisions.len(), mdec.len(), tries);
+        let heavy = t_rerun.elapsed().as_secs_f64() > 2.0;
+        let (mcfg, mdec, tries) = if heavy {
+            // one re-execution of this run costs seconds: keep the recorded decision list as it is
+            (cfg, rep0.decisions.clone(), 0)
+        } else {
+            minimise(cfg, rseed, rep0.decisions.clone(), prop, oracle, sig, &sb, &base_fds)
+        };
+        let note = if heavy { format!("not minimised ({} decisions): a single re-execution takes {:.1}s", mdec.len(), t_rerun.elapsed().as_secs_f64()) } else { format!("minimised from {} decisions to {} in {} re-executions", rep0.decisions.len(), mdec.len(), tries) };
         match write_replay(prop, world, profile, index, rseed, &mcfg, &mdec, oracle, sig, detail, &sb, &base_fds, &note) {
             Some(path) => {
                 // the replay file must reproduce in a fresh process
@@ -668,9 +692,12 @@ pub fn check(prop: &str, tier: &str) -> i32 {
     // crashes / hangs of whole runs: violations for the properties that forbid them
     for c in &crashes {
         let what = c["what"].as_str().unwrap_or("");
-        if matches!(prop, "C14" | "C18" | "C15") {
+        // a run that kills its process (abort inside an extern "C" client call, runaway loop) is a
+        // violation of the properties that promise a clean answer; elsewhere it is a harness error
+        let world_b = c["world"].as_str() == Some("B");
+        if matches!(prop, "C14" | "C18" | "C15") || (world_b && matches!(prop, "C05" | "C17")) {
             new_violations += 1;
-            let dir = verif_root().join("replays");
+            let dir = replay_dir();
             let _ = std::fs::create_dir_all(&dir);
             let path = dir.join(format!("{prop}-crash-{:016x}.json", c["seed"].as_u64().unwrap_or(0)));
             let cfg = gen_cfg(c["world"].as_str().unwrap(), c["profile"].as_str().unwrap(), c["seed"].as_u64().unwrap(), c["index"].as_u64().unwrap());
@@ -738,7 +765,7 @@ pub fn check(prop: &str, tier: &str) -> i32 {
         "wall_s": wall,
         "violations": new_violations,
     });
-    let evdir = verif_root().join("evidence");
+    let evdir = std::env::var_os("VERIF_EVIDENCE_DIR").map(PathBuf::from).unwrap_or_else(|| verif_root().join("evidence"));
     let _ = std::fs::create_dir_all(&evdir);
     if let Err(e) = std::fs::write(evdir.join(format!("{prop}.json")), serde_json::to_string_pretty(&ev).unwrap()) {
         harness_fail.push(format!("cannot write evidence: {e}"));
